@@ -218,11 +218,12 @@ def replay_api(case):
 LEVELS = ["server", "conn", "user", "userconn", "client"]
 E2E = st.tuples(st.sampled_from(LEVELS), st.sampled_from(["down", "up"]), st.sampled_from([500, 1000, 4000, 20000]), st.integers(1, 4),
                 st.sampled_from([1, 2]), st.sampled_from([0, 1, 700, 3000, 9000]), st.sampled_from([64, 256, 1024]),
-                st.one_of(st.none(), st.tuples(st.sampled_from(LEVELS[:4]), st.sampled_from([300, 2500, 50000]))))
+                st.one_of(st.none(), st.tuples(st.sampled_from(LEVELS[:4]), st.sampled_from([300, 2500, 50000]))),
+                st.sampled_from(["atomic", "atomic", "pending_while_other_leaves", "reuser", "early_bird", "wrong_password_first"]))
 
 
 async def _e2e(loop, case, out):
-    level, direction, L, nconn, nusers, size, block, second = case
+    level, direction, L, nconn, nusers, size, block, second, choreo = case
     loop.net.record_writes = True
     loop.net.fixed_latency = 0.0
     loop.net.fixed_segment = 1 << 30
@@ -255,12 +256,51 @@ async def _e2e(loop, case, out):
     harness.mem_populate(server, tree)
     conns = []
 
+    # login choreography: the sessions that transfer do not all log in atomically and at the same time
+    gate = asyncio.Event()
+    left = asyncio.Event()
+
+    async def helper_session():
+        """A session of user u0 that is fully logged in while session 0 is between USER and PASS, and then leaves."""
+        h = aioftp.Client(path_io_factory=aioftp.MemoryPathIO)
+        await h.connect(HOST, PORT)
+        await h.login("u0", "p")
+        hrec = dict(i=-1, user=0, ctrl=h.stream.writer.transport, data=[], helper=True, done=0.0)
+        conns.append(hrec)
+        gate.set()
+        await asyncio.sleep(0.05)
+        if choreo == "early_bird" and size:
+            async with h.download_stream("/f0") as s_:
+                hrec["data"].append(s_.writer.transport)
+                await s_.read()
+        await h.quit()
+        hrec["done"] = loop.time()
+        left.set()
+
     async def one(i):
         c = aioftp.Client(path_io_factory=aioftp.MemoryPathIO, **ckw)
         await c.connect(HOST, PORT)
-        await c.login("u%d" % (i % nusers), "p")
+        name = "u%d" % (i % nusers)
+        if choreo == "pending_while_other_leaves" and i == 0:
+            await c.command("USER " + name, "331")
+            await left.wait()
+            await c.command("PASS p", "230")
+        elif choreo == "reuser" and i % 2 == 0:
+            await c.login(name, "p")
+            await c.command("USER " + name, "331")
+            await c.command("PASS p", "230")
+        elif choreo == "wrong_password_first" and i == 0:
+            await c.command("USER " + name, "331")
+            await c.command("PASS wrong", "530")
+            await left.wait()
+            await c.command("PASS p", "230")
+        else:
+            if choreo in ("pending_while_other_leaves", "wrong_password_first", "early_bird"):
+                await left.wait()
+            await c.login(name, "p")
         rec = dict(i=i, user=i % nusers, ctrl=c.stream.writer.transport, data=[])
         conns.append(rec)
+        await start.wait() if False else None
         if direction == "down":
             async with c.download_stream("/f%d" % i) as s:
                 rec["data"].append(s.writer.transport)
@@ -277,7 +317,10 @@ async def _e2e(loop, case, out):
         rec["done"] = loop.time()
         await c.quit()
 
-    await asyncio.gather(*[one(i) for i in range(nconn)])
+    tasks = [one(i) for i in range(nconn)]
+    if choreo in ("pending_while_other_leaves", "wrong_password_first", "early_bird"):
+        tasks.append(helper_session())
+    await asyncio.gather(*tasks)
     await asyncio.wait_for(server.close(), 1000)
     out["conns"] = conns
 
@@ -298,10 +341,10 @@ def scope_events(conns, level, direction, who):
 
 
 def check_e2e(ctx, case):
-    level, direction, L, nconn, nusers, size, block, second = case
+    level, direction, L, nconn, nusers, size, block, second, choreo = case
     if second and second[0] == level:
         second = None  # the same level cannot carry two limits
-        case = (level, direction, L, nconn, nusers, size, block, None)
+        case = (level, direction, L, nconn, nusers, size, block, None, choreo)
     out = {}
     try:
         simnet.run(lambda loop: _e2e(loop, case, out))
@@ -310,9 +353,9 @@ def check_e2e(ctx, case):
     conns = out["conns"]
     limits = [(level, L)] + ([tuple(second)] if second else [])
     ctx.count(case, nconn >= 2 or bool(second), sample=dict(level=level, direction=direction, limit=L, connections=nconn, users=nusers,
-                                                         size=size, block=block, second_limit=second,
+                                                         size=size, block=block, second_limit=second, login_choreography=choreo,
                                                          durations=[round(r["done"], 3) for r in conns]),
-              classes=["level_" + level, "dir_" + direction, "conns_%d" % nconn] + (["two_limits"] if second else []))
+              classes=["level_" + level, "dir_" + direction, "conns_%d" % nconn, "choreo_" + choreo] + (["two_limits"] if second else []))
     detail = dict(case=list(case))
     for lv, lim in limits:
         if lv in ("server",):
@@ -320,11 +363,12 @@ def check_e2e(ctx, case):
         elif lv in ("user",):
             groups = [(lambda u: (lambda r: r["user"] == u))(u) for u in range(nusers)]
         else:
-            groups = [(lambda i: (lambda r: r["i"] == i))(i) for i in range(nconn)]
+            groups = [(lambda i: (lambda r: r["i"] == i))(i) for i in range(-1, nconn)]
         for g in groups:
             members = [r for r in conns if g(r)]
             if not members:
                 continue
+            atomic = choreo == "atomic"
             # sender-side timestamps exist only for the writing side; for a read limit we see the peer's writes,
             # which the reader's back pressure does not delay at this layer: use the completion time instead
             if (direction == "down") == (lv != "client") or True:
@@ -344,20 +388,21 @@ def check_e2e(ctx, case):
                     cum += n
                 total = cum
                 dur = ev[-1][0] - t0
-                if len(limits) == 1 and dur > total / lim + slack / lim + 1e-6:
+                if atomic and len(limits) == 1 and dur > total / lim + slack / lim + 1e-6:
                     raise Violation(f"C15/e2e/{lv}/{direction}/extra_delay",
                                     dict(detail, scope_level=lv, limit=lim, duration=dur, bound=total / lim + slack / lim, bytes=total))
             else:
                 # reader-limited scope: the reader consumes no faster than the limit, so the transfer cannot finish
                 # before (payload bytes - slack) / limit after its first byte was offered
-                payload = size * len(members)
-                t_first = min(e[0] for e in ev)
+                payload = size * len([r for r in members if not r.get("helper")])
+                # the reader's first limited I/O is the read call it starts right after accepting the control connection
+                t_first = min(r["ctrl"].accepted_at if r["ctrl"].accepted_at is not None else r["ctrl"].opened_at for r in members)
                 t_done = max(r["done"] for r in members)
                 if payload > slack and (t_done - t_first) < (payload - slack) / lim - 1e-6:
                     raise Violation(f"C15/e2e/{lv}/{direction}/runs_ahead_of_limit",
                                     dict(detail, scope_level=lv, limit=lim, duration=t_done - t_first, minimum=(payload - slack) / lim))
                 total = sum(n for _t, n in ev)
-                if len(limits) == 1 and (t_done - t_first) > (total + 400 * len(members)) / lim + slack / lim + 1e-6:
+                if atomic and len(limits) == 1 and (t_done - t_first) > (total + 400 * len(members)) / lim + slack / lim + 1e-6:
                     raise Violation(f"C15/e2e/{lv}/{direction}/extra_delay",
                                     dict(detail, scope_level=lv, limit=lim, duration=t_done - t_first, bytes=total))
 
@@ -372,6 +417,8 @@ def replay_e2e(case):
     c = list(case)
     if c[7] is not None:
         c[7] = tuple(c[7])
+    if len(c) == 8:
+        c.append("atomic")
     check_e2e(Ctx(PROPERTY, "e2e", "quick", 0, 0, 1), tuple(c))
 
 
